@@ -58,7 +58,16 @@ class Rewrite(ast.NodeTransformer):
     # ---- scopes (to key loops by function qualname + ordinal)
     def visit_FunctionDef(self, node):
         self.func_stack.append(node.name)
+        a = node.args
+        local = {x.arg for x in a.posonlyargs + a.args + a.kwonlyargs}
+        if a.vararg:
+            local.add(a.vararg.arg)
+        if a.kwarg:
+            local.add(a.kwarg.arg)
+        local |= {t.id for t in ast.walk(node) if isinstance(t, ast.Name) and isinstance(t.ctx, ast.Store)}
+        self.local_stack = getattr(self, "local_stack", []) + [local]
         self.generic_visit(node)
+        self.local_stack.pop()
         self.func_stack.pop()
         return node
 
@@ -90,14 +99,16 @@ class Rewrite(ast.NodeTransformer):
             return node
         key = "%s.%s#while%d" % (self.modname, qual, n)
         self._c("while")
-        assigned = sorted({t.id for st in ast.walk(node) for t in ast.walk(st)
-                           if isinstance(t, ast.Name) and isinstance(t.ctx, ast.Store)})
+        local = self.local_stack[-1] if getattr(self, "local_stack", None) else set()
+        assigned = sorted({t.id for t in ast.walk(node) if isinstance(t, ast.Name) and t.id in local})
         loc = ast.Call(func=ast.Name("locals", ast.Load()), args=[], keywords=[])
         enter = ast.Assign(targets=[ast.Name("__vf_st", ast.Store())],
                            value=ast.Call(func=ast.Name("__vf_while_enter__", ast.Load()),
                                           args=[ast.Constant(key), loc], keywords=[]))
-        rebinding = [ast.Assign(targets=[ast.Name(v, ast.Store())],
-                                value=ast.Subscript(value=ast.Name("__vf_st", ast.Load()), slice=ast.Constant(v), ctx=ast.Load()))
+        rebinding = [ast.If(test=ast.Compare(left=ast.Constant(v), ops=[ast.In()], comparators=[ast.Name("__vf_st", ast.Load())]),
+                            body=[ast.Assign(targets=[ast.Name(v, ast.Store())],
+                                             value=ast.Subscript(value=ast.Name("__vf_st", ast.Load()), slice=ast.Constant(v), ctx=ast.Load()))],
+                            orelse=[])
                      for v in assigned]
         guard = ast.If(test=ast.Compare(left=ast.Name("__vf_st", ast.Load()), ops=[ast.IsNot()], comparators=[ast.Constant(None)]),
                        body=rebinding or [ast.Pass()], orelse=[])
@@ -610,9 +621,9 @@ def vf_getitem(c, k):
             def miss():
                 raise KeyError(k)
             return _fork_over(builtins.list(c.keys()), k, lambda item: c[item], miss)
-        if isinstance(c, str) and isinstance(k, SymInt):
+        if isinstance(c, (str, list, tuple)) and isinstance(k, SymInt) and not hasattr(type(c), "__vf_symbolic__"):
             def miss2():
-                raise IndexError("string index out of range")
+                raise IndexError("index out of range")
             idx = builtins.list(range(len(c)))
             return _fork_over(idx + [i - len(c) for i in idx], k, lambda item: c[item], miss2)
         raise EngineUnsupported("subscript %s[%s]" % (type(c).__name__, type(k).__name__))
